@@ -178,6 +178,44 @@ class Program:
     def body(self, key):
         return self.bodies.get(key)
 
+    _REFP = re.compile(r"^(&('[A-Za-z_0-9]+ )?(mut )?|\*const |\*mut )")
+
+    def field_type(self, parent_ty, idx):
+        """Type of field `idx` of (external) struct type `parent_ty`, learned from the MIR's own place
+        projections (the driver prints the type of every field projection)."""
+        ft = getattr(self, "_field_types", None)
+        if ft is None:
+            ft = self._field_types = {}
+            for b in self.bodies.values():
+                def visit(p):
+                    cur = b.locals[p["l"]]["ty"]
+                    for e in p["p"]:
+                        if e["k"] == "deref":
+                            cur = self._REFP.sub("", cur) if cur else cur
+                        elif e["k"] == "field":
+                            if cur:
+                                ft.setdefault((self._REFP.sub("", cur), e["i"]), e["ty"])
+                            cur = e["ty"]
+                        elif e["k"] == "downcast":
+                            cur = None  # fields of enum variants are not recorded here
+                        else:
+                            cur = None
+                for bl in b.blocks:
+                    for st in bl["stmts"]:
+                        if st["k"] == "assign":
+                            visit(st["place"])
+                            rv = st["rv"]
+                            if "place" in rv:
+                                visit(rv["place"])
+                            for o in _operands_of_rvalue(rv):
+                                if o.get("k") in ("copy", "move"):
+                                    visit(o["place"])
+                    t = bl["term"]
+                    for o in t.get("args", []) + ([t["discr"]] if t.get("discr") else []):
+                        if o.get("k") in ("copy", "move"):
+                            visit(o["place"])
+        return ft.get((self._REFP.sub("", parent_ty), idx))
+
     def promoted(self, owner, idx):
         return self.bodies.get("%s::promoted[%d]" % (owner, idx))
 
